@@ -325,7 +325,8 @@ struct Run : ContBase {
         cap = ck == 0 ? (int)s.range(2, 6) : ck == 1 ? (int)s.range(7, 16) : (int)s.range(17, 48);
         bool guard = s.chance(2, 3);
         size_t off = 4 * (size_t)s.range(0, 15);
-        size_t memsize = qhasharr_calculate_memsize(cap) + (size_t)s.range(0, 3);      // a few spare bytes must not matter
+        // any region size is legal: up to one slot minus one byte of slack must not add a slot
+        size_t memsize = qhasharr_calculate_memsize(cap) + (s.boolean() ? (size_t)s.range(0, 3) : (size_t)s.range(0, (long)sizeof(qhasharr_slot_t) - 1));
         bool strapi = s.pick({1, 1}) == 0;
         do_twin = m7;
         size_t U = (size_t)s.range(3, (long)cap * 2 + 4);
@@ -333,7 +334,7 @@ struct Run : ContBase {
         reg.make(memsize, off, guard);
         t = qhasharr(reg.mem(), memsize);
         if (!t) c.fail(FUNC, "hasharr:ctor", "qhasharr(mem,%zu) returned NULL", memsize);
-        { int mx = 0; qhasharr_size(t, &mx, nullptr); if (mx != cap) c.fail(FUNC, "hasharr:ctor-capacity", "memsize for %d slots gives a table with %d slots", cap, mx); }
+        { int mx = 0; qhasharr_size(t, &mx, nullptr); if (mx != cap) c.fail(FUNC | IMAGE, "hasharr:ctor-capacity", "a %zu-byte region has room for %d slots after the header, the table claims %d: the last slot would lie outside the region", memsize, cap, mx); }
         if (do_twin) { twinreg.make(memsize, 4 * (size_t)s.range(0, 15) + 4, true); twin = qhasharr(twinreg.mem(), memsize); if (!twin) c.fail(FUNC, "hasharr:ctor", "twin ctor failed"); }
         for (size_t i = 0; i < U; i++) universe.push_back(gen_key(strapi));
         c.op("hasharr(capacity=%d, %s names, universe=%zu, region %s at offset %zu)", cap, strapi ? "string" : "binary", U, guard ? "inside canaries" : "exact-size block", off);
